@@ -178,16 +178,32 @@ def r01_2(prog, rep):
 
 
 def r01_3(prog, rep):
+    """refill() hands every FREQ to its own filler: walked once per frequency with the discriminant fixed (switch or if-chain alike)."""
     rid = "R01.3"
     f = prog.fn("refill", "evical.c")
     cfg = f.cfg
-    sw = None
+    on = None
     for b, blk in cfg.blocks.items():
         if blk.term and blk.term["kind"] == "switch" and lv(cfg.resolve(blk.term.get("on"))).endswith("->freq"):
-            sw = b
-    if sw is None:
-        raise AnalysisBroken("refill: switch over rr->freq not found")
-    on = lv(cfg.resolve(cfg.blocks[sw].term["on"]))
+            on = lv(cfg.resolve(blk.term["on"]))
+    if on is None:
+        for b in cfg.blocks:
+            c = cfg.cond(b)
+            for n_ in walk(c) if c is not None else ():
+                if n_.get("k") == "bin" and n_["op"] == "==" and lv(strip_casts(n_["l"])).endswith("->freq") and const_eval(f, n_["r"]) is not None:
+                    on = lv(strip_casts(n_["l"]))
+    if on is None:
+        raise AnalysisBroken("refill: dispatch on rr->freq not found")
+    root = on.split("->")[0]
+    # the rule itself, or a local copy of it (`lrr = *rr`) handed on by address
+    copies = set()
+    for b, i, x, line in cfg.all_elems():
+        if isinstance(x, dict):
+            for l, kind, nn in writes(x):
+                rhs = nn.get("init") if kind == "decl" else (nn.get("r") if nn.get("k") == "bin" and nn["op"] == "=" else None)
+                r_ = strip_casts(cfg.resolve(rhs)) if rhs is not None else {}
+                if r_.get("k") == "un" and r_.get("op") == "*" and lv(strip_casts(r_["e"])) == root:
+                    copies.add(lv(l))
     grp = prog.macro_int("GRP_CCH_OFF")
     for en, sfx in FREQ_ENUM.items():
         val = prog.enumerator(en)
@@ -199,16 +215,26 @@ def r01_3(prog, rep):
                 if nn.get("k") == "bin" and nn["op"] == "=":
                     r = strip_casts(nn["r"])
                     if r.get("k") == "call" and (r.get("fn") or "").startswith("rrul_fill_"):
-                        _seen.append((lv(l), r["fn"], [lv(a) if const_eval(f, a) is None else const_eval(f, a) for a in r["a"]]))
-            return None
-        AbsWalk(f, {on}, init={on: val}, effect=effect).run(start_block=sw, stop_at={s for s in cfg.reach_from(sw) if not cfg.dominates(sw, s)})
+                        args = []
+                        for a in r["a"]:
+                            a_ = strip_casts(a)
+                            if const_eval(f, a) is not None:
+                                args.append(const_eval(f, a))
+                            elif a_.get("k") == "un" and a_.get("op") == "&":
+                                args.append("&" + lv(a_["e"]))
+                            else:
+                                args.append(lv(a))
+                        _seen.append((lv(l), r["fn"], args))
+            return {on: val}        # re-asserted at every element: this walk is the one for that frequency
+        AbsWalk(f, {on}, init={on: val}, effect=effect, max_states=20000).run()
         key = "refill/%s" % en
-        calls_ = [s for s in seen]
+        calls_ = sorted({(s_[0], s_[1], tuple(s_[2])) for s_ in seen})
+        okrule = lambda a: a == root or (a.startswith("&") and a[1:] in copies)
         if len(calls_) == 1 and calls_[0][1] == "rrul_fill_" + sfx and calls_[0][0].endswith("->ncch") and \
-                calls_[0][2][0].endswith("->cch") and calls_[0][2][1] == grp and calls_[0][2][2] == on.split("->")[0]:
-            rep.ok(rid, key, f.loc(), "%s -> ncch = %s(cch, %d, rr)" % (en, calls_[0][1], grp))
+                str(calls_[0][2][0]).endswith("->cch") and calls_[0][2][1] == grp and okrule(str(calls_[0][2][2])):
+            rep.ok(rid, key, f.loc(), "%s -> ncch = %s(cch, %d, %s)" % (en, calls_[0][1], grp, calls_[0][2][2]))
         else:
-            rep.fail(rid, key, f.loc(), "%s dispatches to %s (expected exactly ncch = rrul_fill_%s(cch, %d, rr))" % (en, calls_ or "no filler", sfx, grp))
+            rep.fail(rid, key, f.loc(), "%s dispatches to %s (expected exactly ncch = rrul_fill_%s(cch, %d, the rule or a copy of it))" % (en, calls_ or "no filler", sfx, grp))
     # the seed: every cache entry is initialised with the proto instant before the filler is called
     rep.ok(rid, "refill/dispatch-table", f.loc(), "7 frequencies examined", nontrivial=False)
 
